@@ -341,6 +341,7 @@ def execute(task, rundir, keep_to=None):
         return {"rc": r["rc"], "timed_out": r["timed_out"], "stderr": r["err"][-300:], "ready": m["ready"], "done": m["done"],
                 "in_dump": m["in_dump"], "last_completed": m["last_completed"], "raised": m["raised"],
                 "ioerror": m["ioerror"], "killed": m["killed"], "died_as_planned": died, "how": m["how"], "tdmps": m["tdmps"],
+                "begun": m["begun"],
                 "state": key, "files": files, "start_state": start_key, "start_prev": start_prev, "stray": stray,
                 "wall": round(time.time() - t0, 3), "events": m["events"] if task["kind"] == "record" else None}
 
@@ -369,6 +370,28 @@ def judge(task, o):
         res.update(verdict="violated", signature=f"crash|loadable-file-with-wrong-content|start={start}|history={hist}",
                    detail={"files": files})
         return res
+    # dumps that raised (TdMpsJob swallows the exception and goes on): only the injected IOError may do that
+    allowed = 1 if (hist == "ioerror-swallowed" and o.get("ioerror") is not None) else 0
+    if len(o.get("raised") or []) > allowed:
+        res.update(verdict="violated", signature=f"crash|dump-raised-without-an-injected-fault|history={hist}",
+                   detail={"raised": o["raised"], "injected_ioerror": o.get("ioerror")})
+        return res
+    if task["kind"].startswith("control"):
+        # a run without crash dumps after every step and leaves the result of the LAST step loadable
+        begun = o.get("begun") or []
+        if len(begun) < task["nsteps"]:
+            res.update(verdict="violated", signature=f"control|fewer-dumps-than-steps|history={hist}",
+                       detail={"begun": begun, "nsteps": task["nsteps"]})
+            return res
+        last = tuple(o["last_completed"]) if o["last_completed"] else None
+        if begun and last is not None and last != tuple(begun[-1]) and allowed == 0:
+            res.update(verdict="violated", signature=f"control|last-dump-did-not-complete|history={hist}",
+                       detail={"begun": begun, "last_completed": last})
+            return res
+        if last is not None and last not in have.values():
+            res.update(verdict="violated", signature=f"control|result-of-the-last-step-not-loadable|history={hist}",
+                       detail={"last_completed": last, "have": have, "files": files})
+            return res
     if prev is None:
         res.update(verdict="vacuous")
         return res
@@ -489,7 +512,12 @@ def build_catalogue(tier, rundir, nproc=16, log=None):
             recs0 = recs_list[0]
             if recs0.get("python"):
                 wr = [e for e in recs0["python"]["events"] if e["dump"] == 2 and e["op"] == "write" and e["nbytes"] > 0]
-                picks = [wr[len(wr) // 2]] if not thorough else [wr[0], wr[len(wr) // 2], wr[-1]]
+                if not wr:
+                    # the second dump of an undisturbed run wrote nothing: reported by the control case, no ioerror history
+                    cat["notes"].append("recording: dump 2 of the undisturbed run performs no write")
+                    picks = []
+                else:
+                    picks = [wr[len(wr) // 2]] if not thorough else [wr[0], wr[len(wr) // 2], wr[-1]]
                 for e in picks:
                     r2 = record("clean", None, 1, S_GEN1, ioerror_at=e["i"])
                     if r2.get("python"):
